@@ -112,6 +112,8 @@ static void one(idx_t l1, idx_t l2, int ndim, DTWSettings *st) {
     free(s1); free(s2);
 }
 
+#define SENTINEL (-1.2345678912345e-250)
+static long unwritten = 0;
 static void matrices(int n, int ndim, int maxlen, DTWSettings *st) {
     // all blocks for n series, ptrs and matrix layouts, outputs of exactly dtw_distances_length
     idx_t *lengths = malloc(sizeof(idx_t) * n); seq_t **ptrs = malloc(sizeof(seq_t *) * n);
@@ -127,6 +129,7 @@ static void matrices(int n, int ndim, int maxlen, DTWSettings *st) {
             DTWBlock b2 = b; idx_t len = dtw_distances_length(&b2, n, n); calls[31]++;
             for (int route = 0; route < 6; route++) {
                 seq_t *out = malloc(sizeof(seq_t) * (len ? len : 0) + (len ? 0 : 1)); b2 = b; idx_t got = 0;
+                for (idx_t q = 0; q < len; q++) out[q] = SENTINEL;
                 switch (route) {
                     case 0: got = dtw_distances_ptrs(ptrs, n, lengths, out, &b2, st); calls[23]++; break;
                     case 1: got = dtw_distances_ndim_ptrs(ptrs, n, lengths, ndim, out, &b2, st); calls[24]++; break;
@@ -136,7 +139,11 @@ static void matrices(int n, int ndim, int maxlen, DTWSettings *st) {
                     case 5: got = dtw_distances_ndim_matrices(matrix, n, L0, matrix, n, L0, ndim, out, &b2, st); calls[28]++; break;
                 }
                 if (got != len) { printf("LENGTH-MISMATCH route=%d n=%d block=%d,%d,%d,%d triu=%d got=%zd len=%zd\n", route, n, rb, re, cb, ce, triu, got, len); }
-                if (len) acc(out[len - 1]);
+                // every advertised entry must have been written (the Python wrapper hands over uninitialised memory)
+                if (!(route == 2 && ndim != 1) && !(route == 4 && ndim != 1))
+                    for (idx_t q = 0; q < len; q++) if (out[q] == SENTINEL) {
+                        printf("UNWRITTEN route=%d n=%d ndim=%d block=%d,%d,%d,%d triu=%d idx=%zd len=%zd\n", route, n, ndim, rb, re, cb, ce, triu, q, len); unwritten++; break; }
+                if (len && !(route == 2 && ndim != 1) && !(route == 4 && ndim != 1)) acc(out[len - 1]);
                 free(out);
             }
         }
